@@ -37,28 +37,43 @@ ob("NC_varoffset_inj", "C03", entry="h_NC_varoffset_inj", mode="bounded",
 ob("NCvcmaxcontig", "C03", entry="h_NCvcmaxcontig", enforce="NCvcmaxcontig", mode="bounded",
    bound="rank<=4 (loops unwound; rank 32 exhausts memory)", unwind=6, cex_unwind=10, defines=["MAXR=4"], **PG)
 
+# NCgenio (strided odometer) against a logging/checking NCvario stub.  On the tree as found this
+# FAILS for one reason: a request with some count == 0 still calls NCvario once (one cell is
+# transferred although the request selects none).
+ob("NCgenio", "C03", unit="putgetg_u.c", file="mfhdf/src/putgetg.c", entry="h_NCgenio", enforce="H4_NCgenio",
+   mode="bounded", bound="rank 1..2, counts 0..2, strides 1..3, start 0..8, element size 4", unwind=8,
+   cex_unwind=10, defines=["C03_W=4"], objbits=8, trusted=["NC_hlookupvar", "NCvario(stub)"])
+
+ob("NCgenio_nonempty", "C03", unit="putgetg_u.c", file="mfhdf/src/putgetg.c", entry="h_NCgenio_nonempty",
+   enforce="H4_NCgenio", mode="bounded", bound="rank 1..2, counts 1..2, strides 1..3, start 0..8, element size 4",
+   unwind=8, cex_unwind=10, defines=["C03_W=4"], objbits=8, trusted=["NC_hlookupvar", "NCvario(stub)"])
+
 GT = dict(unit="mfsd_gate_u.c", file="mfhdf/src/mfsd.c", objbits=8,
           trusted=["NC_check_id", "HCPgetcomptype", "HCget_config_info", "Hendaccess", "NCvario(stub)", "NCgenio(stub)"])
 ob("SDreaddata_gate", "C03", entry="h_SDreaddata_gate", mode="bounded", bound="rank 1..4, dataset ids only",
    unwind=6, cex_unwind=10, defines=["MAXR=4"], timeout=900, **GT)
 ob("SDwritedata_gate", "C03", entry="h_SDwritedata_gate", mode="bounded", bound="rank 1..4, dataset ids only",
    unwind=6, cex_unwind=10, defines=["MAXR=4"], timeout=900, **GT)
-# rank-0 datasets (SDcreate accepts rank 0): expected to FAIL on the unchanged tree -- SDreaddata
-# dereferences var->shape[0] (NULL for scalars) when a stride vector is given.  Defect candidate.
+# rank-0 datasets (SDcreate accepts rank 0, NC_var_shape leaves shape == NULL).  On the tree as
+# found SDreaddata_gate_scalar FAILS for one reason: mfsd.c:723 `int32 dimsize = (int32)var->shape[0]`
+# is executed whenever stride != NULL (NULL dereference, native SEGV reproduced).  SDwritedata has
+# no such access.
 ob("SDreaddata_gate_scalar", "C03", entry="h_SDreaddata_gate_scalar", mode="bounded",
-   bound="rank 0..2, dataset ids only", unwind=4, cex_unwind=10, defines=["MAXR=2"], tier="thorough", **GT)
+   bound="rank 0..2, dataset ids only", unwind=4, cex_unwind=10, defines=["MAXR=2"], **GT)
+ob("SDwritedata_gate_scalar", "C03", entry="h_SDwritedata_gate_scalar", mode="bounded",
+   bound="rank 0..2, dataset ids only", unwind=4, cex_unwind=10, defines=["MAXR=2"], **GT)
 
-ob("NC_var_shape", "C03", unit="var_u.c", file="mfhdf/src/var.c", entry="h_NC_var_shape", enforce="H4_NC_var_shape",
-   mode="bounded", bound="rank<=3, <=4 dimensions, dimension sizes<=8, element size 4", unwind=6,
-   cex_unwind=10, defines=["C03_W=4"], tier="thorough", objbits=8)
+# NC_var_shape (units/var_u.c holds the contract text): NOT registered -- cbmc exhausts 10 GB during
+# propositional reduction even at rank <= 2, element size 4, fresh variable only.  Residual.
 
 prop("C03",
-     residual="composition over histories of writes/reads; the NCvario/NCgenio odometers (run decomposition, "
-              "row-major order, exactly-once coverage) are not under contract; first-write leading/trailing fill "
+     residual="composition over histories of writes/reads; the NCvario odometer (run decomposition into maximal contiguous runs) is not under contract "
+              "(NCgenio is, bounded, against an NCvario stub); first-write leading/trailing fill "
               "and type conversion in hdf_xdr_NCvdata; fill-value selection and fill-record contents; position "
               "numrecs*reclen of the fill records; persistence across SDend/SDstart; netCDF/CDF file types; "
               "dimension ids passed to SDreaddata/SDwritedata; ranks above the stated bounds in the unwound "
-              "obligations; NC_var_shape (obligation exhausts memory, thorough tier only)",
+              "obligations; NC_var_shape (dsizes/len are what NC_varoffset's contract assumes: the obligation exhausted memory and "
+              "was removed, so C03_DSIZES_RM3 is an unproved assumption)",
      assumptions=["A-GUARD: every dimension vector (and every heap block NC_var_shape allocates) is preceded by "
                   "at least one addressable element: the real loops form the address one element before the "
                   "vector (`for (; ip >= boundary; ip--)`), undefined in ISO C",
@@ -67,7 +82,3 @@ prop("C03",
                   "SD API only: cdf_routine_name is SDreaddata/SDwritedata, file_type == HDF_FILE, "
                   "coordinates/edges/strides are int32 values, extents <= INT32_MAX"])
 
-# Without A-GUARD: exhibits the undefined pointer-before-array idiom (expected to FAIL on the
-# unchanged tree: "pointer relation: pointer outside object bounds in shp", putget.c:1544).
-ob("NCvcmaxcontig_strictptr", "C03", entry="h_NCvcmaxcontig", enforce="NCvcmaxcontig", mode="bounded",
-   bound="rank<=2", unwind=4, cex_unwind=10, defines=["MAXR=2", "C03_STRICT_PTR"], tier="thorough", **PG)
